@@ -26,7 +26,7 @@ Proof.
   cbn [app flat_map]. rewrite flat_map_app.
   destruct k as [a pc|un uc|fn fc rt rc od ou|cn ce|inn ic]; try discriminate.
   - (* primary key: the clause PRIMARY KEY (..) of CREATE TABLE *)
-    apply in_or_app. left. cbn [stmt_created create_table_stmt].
+    apply in_or_app. left. cbn [stmt_created create_table_stmt]. unfold create_pks, create_fks.
     apply in_or_app. left. apply in_map_iff. exists pc. split; [reflexivity|].
     apply in_flat_map. exists (CPrimaryKey a pc). split; [|now left].
     apply filter_In. split; [exact Hk|reflexivity].
@@ -35,7 +35,7 @@ Proof.
     apply in_flat_map. exists (SCreateIndex true (build_unique_constraint_name tn uc un) tn uc). split; [|now left].
     apply (in_flat_map_intro _ (CUnique un uc)); [exact Hk|]. now left.
   - (* foreign key: CONSTRAINT name FOREIGN KEY of CREATE TABLE *)
-    apply in_or_app. left. cbn [stmt_created create_table_stmt].
+    apply in_or_app. left. cbn [stmt_created create_table_stmt]. unfold create_pks, create_fks.
     apply in_or_app. right. apply in_or_app. left.
     apply in_flat_map. exists (mkFk (Some (build_foreign_key_name tn fc fn)) fc rt rc od ou). split; [|now left].
     apply in_flat_map. exists (CForeignKey fn fc rt rc od ou). split; [|now left].
